@@ -6,6 +6,7 @@ import (
 	"net"
 	"runtime"
 	"sort"
+	"strconv"
 	"strings"
 	"sync"
 	"sync/atomic"
@@ -1249,6 +1250,26 @@ func (r *pkRun) pickAndCheck(q pkQuery) (first *pkHost, ok bool) {
 			R = append(R, h)
 		}
 	}
+	// placement of the primary: the first replica is the node that owns the key's token - the
+	// owner of the lowest ring token that is not below it, the lowest token of all when none
+	// is (the ring wraps) - wherever the replica list comes from the ring alone or from a
+	// strategy that starts its walk at the owner
+	if routed && len(rInfos) > 0 && rInfos[0] != nil {
+		if owner := m.tokenOwner(murmur.Murmur3H1(q.key)); owner != nil {
+			applies := !fromStrategy
+			if spec := m.specs[q.ks]; fromStrategy && spec != nil && q.ks == cfg.sessionKS && !r.ksStale[q.ks] && !m.anyUnread() {
+				applies = (spec.class == "SimpleStrategy" && spec.rf >= 1) || (spec.class == "NetworkTopologyStrategy" && spec.dcs[owner.dc] > 0)
+			}
+			if first := m.byInfo(rInfos[0]); applies && first != owner {
+				k.Probe("primary-checked")
+				k.Violate("C11", "C11/primary-replica-not-token-owner", "query %s: its token %d belongs to %s (tokens %s), the replica list the policy uses begins with %s; policy %s",
+					q, murmur.Murmur3H1(q.key), owner.id, strings.Join(owner.tokens, ","), pkIDs([]*pkHost{first}), cfg)
+				return nil, false
+			} else if applies {
+				k.Probe("primary-checked")
+			}
+		}
+	}
 	line := fmt.Sprintf("pick %s -> %s", q, pkIDs(seq))
 	if routed {
 		var raw []*pkHost
@@ -2269,4 +2290,43 @@ func (r *pkRun) parallelRound(round int, last bool) bool {
 		return false
 	}
 	return !last || r.historyCheck(false)
+}
+
+// tokenOwner is the model's own ring lookup: the known host owning the lowest token >= t,
+// or the lowest token of all when t is above every token. nil when no known host has a
+// token or two known hosts claim the deciding token.
+func (m *pkModel) tokenOwner(t int64) *pkHost {
+	var best, lowest *pkHost
+	var bestTok, lowestTok int64
+	dupBest, dupLowest := false, false
+	for _, h := range m.known() {
+		for _, ts := range h.tokens {
+			v, err := strconv.ParseInt(ts, 10, 64)
+			if err != nil {
+				return nil
+			}
+			if lowest == nil || v < lowestTok {
+				lowest, lowestTok, dupLowest = h, v, false
+			} else if v == lowestTok && h != lowest {
+				dupLowest = true
+			}
+			if v >= t {
+				if best == nil || v < bestTok {
+					best, bestTok, dupBest = h, v, false
+				} else if v == bestTok && h != best {
+					dupBest = true
+				}
+			}
+		}
+	}
+	if best != nil {
+		if dupBest {
+			return nil
+		}
+		return best
+	}
+	if dupLowest {
+		return nil
+	}
+	return lowest
 }
